@@ -25,8 +25,10 @@ import (
 	"fmt"
 	"net"
 	"os"
+	"regexp"
 	"runtime"
 	"sort"
+	"strconv"
 	"strings"
 	"sync"
 	"sync/atomic"
@@ -79,7 +81,7 @@ func genAgentOps(t *rapid.T, n int) []OpC {
 func genOperOps(t *rapid.T, n int) []OpC {
 	var out []OpC
 	for i := 0; i < n; i++ {
-		k := rapid.SampledFrom([]string{"add", "kill", "list", "add", "kill", "clear", "add"}).Draw(t, "oper_op")
+		k := rapid.SampledFrom([]string{"add", "kill", "list", "add", "kill", "add", "kill", "add", "list", "kill", "add", "clear", "add", "kill"}).Draw(t, "oper_op")
 		out = append(out, OpC{Op: k, K: rapid.IntRange(0, 2).Draw(t, "slot")})
 	}
 	return out
@@ -174,9 +176,9 @@ func (x *runC) call(what string, f func()) {
 		x.panics = append(x.panics, v)
 		x.uncertain = true
 		x.mu.Unlock()
-		unstick(&x.f.a.SocksSvrMtx)
-		unstick(&x.f.a.SocksCliMtx)
-		unstick(&x.f.a.PortFwdsMtx)
+		unstickNow(&x.f.a.SocksSvrMtx)
+		unstickNow(&x.f.a.SocksCliMtx)
+		unstickNow(&x.f.a.PortFwdsMtx)
 	}
 }
 
@@ -413,17 +415,24 @@ func (x *runC) runSink() {
 
 // slotPort hands out the ports of the three proxy slots.  A slot stays unbound for long
 // stretches of a case (until some operator adds it), so an ephemeral port would invite
-// another process (another shard of this very check) to bind it meanwhile and our client
-// would then talk to a foreign proxy.  Slots therefore come from below the ephemeral range,
-// each process walking its own stretch of 12000-31999.
-var slotSeq int
+// another process (another shard of this very check) to bind it meanwhile, and our client
+// would then talk to a foreign proxy.  Slots therefore come from below the ephemeral range
+// (12000-31999), one block of 1000 ports per shard (the driver runs shard i in .../run-c-i).
+var (
+	slotBlock = -1
+	slotSeq   int
+)
 
 func slotPort() string {
-	if slotSeq == 0 {
-		slotSeq = int(uint32(os.Getpid())*2654435761%20000) + 1
+	if slotBlock < 0 {
+		slotBlock = os.Getpid() % 20
+		if m := regexp.MustCompile(`run-[a-z]+-(\d+)$`).FindStringSubmatch(os.Getenv("VERIF_OUT")); m != nil {
+			n, _ := strconv.Atoi(m[1])
+			slotBlock = n % 20
+		}
 	}
 	slotSeq++
-	p := 12000 + slotSeq%20000
+	p := 12000 + slotBlock*1000 + slotSeq%1000
 	l, err := net.Listen("tcp4", fmt.Sprintf("0.0.0.0:%d", p))
 	if err != nil {
 		return ""
